@@ -31,10 +31,10 @@ func scenarioHeavyLaggard(c *Ctx) *Net {
 	a.inject(heavy, pp2, "future-pp")
 	a.inject(heavy, a.mkP(byz, protocol.LEAN_HELIX_PREPARE, inst, 2, 0, blockHash(x2)), "future-prepare-by-leader")
 	a.inject(heavy, pp2, "future-pp-duplicate")
-	a.inject(heavy, a.mkPP(byz, inst, 3, 0, x3), "future-pp")
 	a.inject(heavy, pp2, "future-pp-duplicate")
 	a.inject(heavy, a.mkPP(byz, inst, 1, 0, x1), "byz-pp")
 	a.inject(heavy, pp2, "past-pp")
+	a.inject(heavy, a.mkPP(byz, inst, 3, 0, x3), "byz-pp")
 	net.drainExcept("")
 	return net
 }
